@@ -33,10 +33,11 @@ pub const DEF: PropDef = PropDef {
     ],
     run,
     replay,
-    cap_s: (50, 840),
+    cap_s: (45, 780),
     shards: 0,
 };
 
+const FAMILIES: [&str; 14] = ["dnf", "dnf_allprobs", "dnf4", "nested", "nested_deep", "one_not", "exclusive", "missing", "special", "wide", "wide_exclusive", "dnf_window", "dnf12", "replay"];
 const PVALS: [f64; 5] = [0.0, 0.2, 0.5, 0.9, 1.0];
 const GROUP_ID: u32 = 7;
 const EPS: f64 = 1e-9;
@@ -64,8 +65,9 @@ impl Setup {
         json!({"fam": self.fam, "f": self.f.text(), "n": self.n, "probs": self.probs.iter().map(|p| format!("{:?}", p)).collect::<Vec<_>>(), "excl": self.excl, "missing": self.missing})
     }
     fn from_json(v: &Value) -> Option<Setup> {
+        let fam = v.get("fam").and_then(|f| f.as_str()).unwrap_or("");
         Some(Setup {
-            fam: "replay",
+            fam: FAMILIES.iter().copied().find(|f| *f == fam).unwrap_or("replay"),
             f: Fm::parse(v.get("f")?.as_str()?)?,
             n: v.get("n")?.as_u64()? as usize,
             probs: v.get("probs")?.as_array()?.iter().map(|p| p.as_str().and_then(|s| s.parse::<f64>().ok())).collect::<Option<Vec<f64>>>()?,
@@ -454,6 +456,10 @@ fn hybrid_all_faults(out: &mut ShardOut, s: &Setup, b: &Built, cfg: &HybridConfi
                     AlertDecision::Indeterminate => out.count("hybrid_decision_indeterminate", 1),
                 }
                 out.count(&format!("hybrid_{}_{}", claim.status, claim.reason), 1);
+                if mode != FaultMode::None && reached {
+                    // what the evaluator said after an injected expiry
+                    out.count(&format!("after_expiry_{}_{:?}", claim.status, claim.decision), 1);
+                }
                 if !valid && claim.status == "NeedsExact" {
                     out.count("invalid_config_needs_exact", 1);
                 }
@@ -868,24 +874,22 @@ fn enumerate_jobs(thorough: bool) -> Vec<Job> {
         }
     }
     // every probability assignment over the value set
-    // (thorough: every DNF with <= 3 clauses and every irredundant DNF; quick: the irredundant ones)
-    let allprob_forms: Vec<Fm> = dnf3m.iter().filter(|m| is_antichain(m) || (thorough && m.len() <= 3)).map(|m| dnf(m)).collect();
+    // (thorough: every DNF; quick: the irredundant ones)
+    let allprob_forms: Vec<Fm> = dnf3m.iter().filter(|m| thorough || is_antichain(m)).map(|m| dnf(m)).collect();
     for f in &allprob_forms {
         for p in all_prob_vectors(3) {
             push("dnf_allprobs", f, 3, p, false, None, Cfgs::Tiny, false);
         }
     }
     if thorough {
-        // all DNFs over 4 seeds with <= 4 clauses, and all 166 irredundant ones (= all non-constant
-        // monotone functions of 4 seeds) whatever their size
+        // all 32767 DNFs over 4 seeds
         for m in dnf_masks(4, 15) {
-            if m.len() > 4 && !is_antichain(&m) {
-                continue;
-            }
             let small = m.len() <= 3;
             let f = dnf(&m);
             push("dnf4", &f, 4, pv(2, 4), false, None, if small { Cfgs::Full } else { Cfgs::Tiny }, small);
-            push("dnf4", &f, 4, pv(0, 4), false, None, Cfgs::Tiny, false);
+            if m.len() <= 4 || is_antichain(&m) {
+                push("dnf4", &f, 4, pv(0, 4), false, None, Cfgs::Tiny, false);
+            }
         }
     } else {
         for m in dnf_masks(4, 3) {
@@ -907,15 +911,14 @@ fn enumerate_jobs(thorough: bool) -> Vec<Job> {
     for f in nested_and_or(4) {
         for i in 0..4 {
             if thorough || i == 0 || i == 2 {
-                let cfgs = if thorough && i == 2 { Cfgs::Full } else if thorough && i == 0 { Cfgs::Reduced } else { Cfgs::Tiny };
-                push("nested", &f, 4, pv(i, 4), false, None, cfgs, true);
+                push("nested", &f, 4, pv(i, 4), false, None, if thorough { Cfgs::Full } else { Cfgs::Tiny }, true);
             }
         }
     }
     for f in nested_and_or_of_clauses().iter().chain(nested_depth3(3).iter()) {
         for i in 0..4 {
             if thorough || i == 2 {
-                push("nested_deep", f, 3, pv(i, 3), false, None, if thorough && i == 2 { Cfgs::Full } else { Cfgs::Tiny }, thorough);
+                push("nested_deep", f, 3, pv(i, 3), false, None, if thorough { Cfgs::Full } else { Cfgs::Tiny }, thorough);
             }
         }
     }
@@ -935,8 +938,10 @@ fn enumerate_jobs(thorough: bool) -> Vec<Job> {
     neg.sort();
     neg.dedup();
     for (n, f) in &neg {
-        for i in [0usize, 2] {
-            push("one_not", f, *n, pv(i, *n), false, None, Cfgs::Tiny, true);
+        for i in [0usize, 2, 3] {
+            if thorough || i != 3 {
+                push("one_not", f, *n, pv(i, *n), false, None, if thorough { Cfgs::Reduced } else { Cfgs::Tiny }, true);
+            }
         }
     }
     // --- exclusive group {0,1} ---
@@ -956,12 +961,12 @@ fn enumerate_jobs(thorough: bool) -> Vec<Job> {
     }
     excl_forms.sort();
     excl_forms.dedup();
-    let p01s: Vec<[f64; 2]> = vec![[0.5, 0.5], [0.2, 0.5], [0.0, 1.0], [0.9, 0.0], [0.2, 0.2]];
+    let p01s: Vec<[f64; 2]> = vec![[0.5, 0.5], [0.2, 0.5], [0.0, 1.0], [0.9, 0.0], [0.2, 0.2], [1.0, 0.0], [0.5, 0.2], [0.0, 0.0]];
     for (n, f) in &excl_forms {
-        for p01 in p01s.iter().take(if *n == 4 { 2 } else { 5 }) {
+        for p01 in p01s.iter().take(if !thorough { 5 } else if *n == 4 { 4 } else { 8 }) {
             let mut p = p01.to_vec();
             p.extend_from_slice(&PVECS[2][2..*n]);
-            push("exclusive", f, *n, p, true, None, Cfgs::Tiny, true);
+            push("exclusive", f, *n, p, true, None, if thorough { Cfgs::Reduced } else { Cfgs::Tiny }, true);
         }
     }
     // --- a seed id missing from the snapshot ---
@@ -1004,14 +1009,6 @@ fn enumerate_jobs(thorough: bool) -> Vec<Job> {
                 if used.len() < n - 1 {
                     continue; // covered (up to renaming) by a smaller case
                 }
-                if n == 6 {
-                    // 6 seeds: only Or-groups of at most 3 seeds each
-                    if let Fm::And(v) = f {
-                        if v.iter().any(|g| matches!(g, Fm::Or(w) if w.len() > 3)) {
-                            continue;
-                        }
-                    }
-                }
                 push("wide", f, n, pv(2, n), false, None, Cfgs::Tiny, true);
                 if n == 5 {
                     push("wide", f, n, pv(0, n), false, None, Cfgs::Tiny, false);
@@ -1030,7 +1027,7 @@ fn enumerate_jobs(thorough: bool) -> Vec<Job> {
         }
         for f in window_dnfs(12) {
             for i in 0..4 {
-                push("dnf12", &f, 12, pv(i, 12), false, None, Cfgs::Reduced, true);
+                push("dnf12", &f, 12, pv(i, 12), false, None, Cfgs::Full, true);
             }
         }
     }
@@ -1351,7 +1348,11 @@ fn run(ctx: &Ctx) -> ShardOut {
         if !ctx.mine(idx) {
             continue;
         }
+        // development knob (cost estimation): run only every n-th block of setups; reported as a cap
         if let Ok(n) = std::env::var("VCHECK_C08_SAMPLE") {
+            if out.capped.is_empty() {
+                out.capped.push(format!("VCHECK_C08_SAMPLE={} set: only a subsample of the setups was run", n));
+            }
             if (idx / 16) % n.parse::<u64>().unwrap_or(1) != 0 {
                 continue;
             }
@@ -1365,8 +1366,26 @@ fn run(ctx: &Ctx) -> ShardOut {
         }
         run_job(&mut out, job, &sets, &mut tally);
         done += 1;
-        if done % 97 == 1 {
-            out.sample(json!({"entry": "hybrid", "setup": job.setup.json(), "configs": match job.cfgs { Cfgs::Full => sets.full.len() + sets.invalid.len(), Cfgs::Reduced => sets.reduced.len(), Cfgs::Tiny => sets.tiny.len() }}));
+        if done % 97 == 1 && out.samples.len() < 4 {
+            let nconfigs = match job.cfgs {
+                Cfgs::Full => sets.full.len() + sets.invalid.len(),
+                Cfgs::Reduced => sets.reduced.len(),
+                Cfgs::Tiny => sets.tiny.len(),
+            };
+            let mut sample = json!({"entry": "hybrid", "setup": job.setup.json(), "configs_run": nconfigs});
+            // one concrete (config, fault index) of this setup, written out with what was observed
+            if let Ok(b) = build(&job.setup) {
+                let cfg = &sets.tiny[(done as usize / 97) % sets.tiny.len()];
+                if let Ok((c0, reads)) = run_hybrid(&b, cfg, FaultMode::None, 0) {
+                    sample["p_star"] = json!([b.truth.0, b.truth.1]);
+                    sample["example_config"] = cfg_json(cfg);
+                    sample["fault_free"] = json!({"clock_readings": reads, "result": c0.show()});
+                    if let Ok((c1, _)) = run_hybrid(&b, cfg, FaultMode::Single, reads / 2) {
+                        sample["fault_single_jump_at_reading"] = json!({"at": reads / 2, "result": c1.show()});
+                    }
+                }
+            }
+            out.sample(sample);
         }
     }
     if done < mine {
